@@ -74,4 +74,39 @@ theorem file_subset_same_end (c : Cfg) (p : PhysTM) (cols : List Md) (slices : L
   rw [C04.reads_wellformed c p cols slices hp hn hf sub rest fuel hfuel,
       C04.reads_wellformed c p cols slices hp hn hf none rest fuel hfuel]
 
+/-! ### streams that cannot seek (repair F25)
+
+`sbdf_skip_bytes` moves with `fseek` and, where the stream refuses (`ESPIPE`), reads the bytes and
+drops them.  The two ways of moving agree on every stream that holds the bytes — so each skip of a
+well-formed section behaves the same on a pipe as on a file.  (That the fallback is taken exactly
+when `fseek` fails, and the lift of this step to whole sections on such streams, is checked by the
+correspondence stage "c07 streams that cannot seek".) -/
+
+theorem discard_eq_seek (n : Int) (h0 : 0 ≤ n) (d : Array UInt8) (pos : Nat) (h : pos + n.toNat ≤ d.size) :
+    discard n d pos = seek n d pos := by
+  unfold discard seek readN
+  have e : ((pos : Int) + n).toNat = pos + n.toNat := by omega
+  by_cases hn : n.toNat = 0
+  · have : n = 0 := by omega
+    subst this; simp
+  · simp only [hn, if_false, h, if_true]
+    have : 0 ≤ (pos : Int) + n := by omega
+    simp [this, e]
+
+/-- reading-and-dropping consumes exactly the bytes skipped, whatever follows -/
+theorem discard_reads (bs : Bytes) : Reads (discard (bs.length : Int)) bs () := by
+  intro pre rest
+  have := Reads.readN bs pre rest
+  unfold discard
+  simp only [Int.toNat_natCast]
+  rw [this]
+
+/-- and on a truncated stream it fails with an I/O error instead of moving past the end -/
+theorem discard_truncated (n : Int) (hn : 0 < n) (d : Array UInt8) (pos : Nat) (h : d.size < pos + n.toNat) :
+    discard n d pos = .error (.st .io) := by
+  unfold discard readN
+  have h1 : ¬ n.toNat = 0 := by omega
+  have h2 : ¬ pos + n.toNat ≤ d.size := by omega
+  simp [h1, h2]
+
 end Sbdf.C07
